@@ -51,6 +51,18 @@ func main() {
 		}
 		os.Setenv("VERIF_NO_EVIDENCE", "1")
 		os.Exit(runProp(r.Property, "quick"))
+	case "loopback": // dev: literals at the back edges of the innermost loop around a call
+		c := newCtx("dev", "quick")
+		spec := os.Args[2]
+		c.Load("./" + spec[:strings.Index(spec, ":")])
+		f := c.Facts(c.Fn(spec))
+		for i, st := range f.LoopBackStates(os.Args[3]) {
+			fmt.Println("-- back edge state", i)
+			for _, l := range guardLits(st) {
+				fmt.Println("     ", l)
+			}
+		}
+		return
 	case "dbkeys":
 		dbkeysCmd()
 		return
